@@ -68,6 +68,17 @@ def run_phase(ctx, res, prop, n_quick=36, n_thorough=400):
         tid = len(traces) + 1
         traces.append({"id": "M%d" % tid, "v1": v1, "ev": ev})
         info["M%d" % tid] = inf
+    # every cause under every configuration of the manager (logging to a file, -D, standard output closed)
+    plans_all = [json.loads(u) for u in uniq if json.loads(u)["should"]]
+    for cause in sorted({c for p in plans_all for c in p["plan"]}):
+        having = [p for p in plans_all if cause in p["plan"]]
+        for k in range(4):
+            p = having[k % len(having)]
+            ev, inf = procmgr.run_lifetime(ctx.scratch, "%s_cc_%s_%d" % (prop, cause, k), True, list(p["plan"]), False, rng,
+                                           plat="ledger", cfg=k)
+            tid = len(traces) + 1
+            traces.append({"id": "M%d" % tid, "v1": False, "ev": ev})
+            info["M%d" % tid] = inf
     verdicts, stats = tlc.validate("TraceManager", "Trace_Manager.cfg", traces, shards=4)
     res.checker_cmds.append("tlc -workers 1 -config Trace_Manager.cfg TraceManager (x%d shards)" % stats["jvms"])
     accepted = 0
